@@ -82,12 +82,11 @@ claim('C07', 'proof',
       'appends (IC verbatim, one row per input sample), and row k of the trajectory is the last row of predict() applied '
       'to the window of the min_samples_ previously predicted states and the true inputs (C07_step; uses C02 to identify '
       'lift_state on zero inputs with the state block of the full lift); episodes are independent; output shapes per '
-      'flag. Correspondence: whole output matrices of predict_trajectory (both call forms, relift on/off, all return '
+      'flag; the divergence bookkeeping (C07_divergence_*: a diverging episode still returns one row per input sample, NaN exactly from the crash index on, the rows before it are the iterated one-step predictions, and nothing leaks into another episode of the call). Correspondence: whole output matrices of predict_trajectory (both call forms, relift on/off, all return '
       'flags, fit/call episode flags, malformed IC / input lengths) and of predict, exact on integers.',
       'Lean kernel + standard axioms; C07_step carries the hypothesis that predicted states have the state width '
       '(width law of the inverse; checked by the correspondence); the lifted recursion theta[k+1]=A theta[k]+B upsilon[k] '
-      'of the no-relift loop is checked by correspondence and oracle, not yet a Lean theorem; the NaN divergence branch '
-      'is floating-point behaviour outside the model (see C20 / F-diverge).',
+      'of the no-relift loop is C07_norelift_step; WHEN a prediction diverges is floating-point behaviour outside the model (the step that may diverge is a parameter of the loop skeleton; the correspondence scripts it), see C20 / F-diverge.',
       'Lean 4 proof (loop invariant by induction on fuel; C02 locality) + exact integer correspondence',
       'DESIGN.md section 5 C07')
 
